@@ -42,6 +42,8 @@ func main() {
 		err = cmdFidelity(os.Args[2:])
 	case "drun":
 		err = cmdDRun(os.Args[2:])
+	case "concx":
+		err = cmdConcX(os.Args[2:])
 	case "opfront":
 		err = cmdOpFront(os.Args[2:])
 	case "longpoll":
